@@ -13,7 +13,7 @@
 (* Each case carries the input in all three protocols and what the         *)
 (* tolerant reader must make of it, with and without retention.            *)
 (***************************************************************************)
-EXTENDS ThriftSchema, ThriftBinary, ThriftCompact, TLC, Json, IOUtils
+EXTENDS ThriftSchema, EncMap, TLC, Json, IOUtils
 
 Schemas == ndJsonDeserialize(IOEnv.VERIF_SCHEMAS)
 Tier == IF "VERIF_TIER" \in DOMAIN IOEnv THEN IOEnv.VERIF_TIER ELSE "quick"
@@ -62,6 +62,7 @@ Case(sid, S, d, kind, how, w) ==
   IN [sid |-> sid, ty |-> d.name, kind |-> kind, how |-> how, w |-> w,
       bin |-> BinEnc(w, FALSE), binle |-> BinEnc(w, TRUE), cs |-> CEnc(w),
       ok |-> IF e.ok THEN 1 ELSE 0, exp |-> e.v, okk |-> IF ek.ok THEN 1 ELSE 0, expk |-> ek.v,
+      mbin |-> IF kind = "base" THEN BinMarks(w) ELSE <<>>, mc |-> IF kind = "base" THEN CMarks(w) ELSE <<>>,
       isunion |-> IF d.d = "union" THEN 1 ELSE 0, isarg |-> IF Has(d, "is_arg") THEN 1 ELSE 0]
 
 CasesOfDef(sid, S, d) ==
@@ -74,6 +75,7 @@ CasesOfDef(sid, S, d) ==
                       bin |-> <<0>>, binle |-> <<0>>, cs |-> <<0>>,
                       ok |-> IF EmptyDecodes(S, d.name) THEN 1 ELSE 0, exp |-> DefaultVal(S, d.name),
                       okk |-> IF EmptyDecodes(S, d.name) THEN 1 ELSE 0, expk |-> DefaultVal(S, d.name),
+                      mbin |-> <<>>, mc |-> <<>>,
                       isunion |-> 0, isarg |-> IF Has(d, "is_arg") THEN 1 ELSE 0]>>
   IN base \o evo \o dflt
 
